@@ -163,6 +163,24 @@ func c07Trees(tier string, r *vc.Rand) []*c07Node {
 			}
 		}
 	}
+	// thorough: ALL chains of depth 4 as well (12^4 = 20736 per context kind)
+	if tier == "thorough" {
+		for _, fresh := range []bool{false, true} {
+			for code := 0; code < 12*12*12*12; code++ {
+				c := code
+				var nodes []*c07Node
+				for i := 0; i < 4; i++ {
+					k := c % 12
+					c /= 12
+					nodes = append(nodes, &c07Node{Prop: k / 2, Outcome: outs[k%2], Fresh: fresh})
+				}
+				for i := 0; i+1 < 4; i++ {
+					nodes[i].Children = []*c07Node{nodes[i+1]}
+				}
+				out = append(out, nodes[0])
+			}
+		}
+	}
 	// trees with two children at depth <= 2 (sampled: root x child1 x child2, grandchild under child1)
 	n2 := 300
 	if tier == "thorough" {
@@ -247,6 +265,9 @@ func runC07(r *vc.Run, replay string) {
 		c07Judge(r, j.name, j.tree, &j.res, byCase[j.name])
 	}
 	r.Exhaustive = append(r.Exhaustive, "all chains of depth <= 3 over 6 modes x 2 outcomes, for shared and fresh contexts")
+	if r.Tier == "thorough" {
+		r.Exhaustive = append(r.Exhaustive, "all chains of depth 4 over 6 modes x 2 outcomes, for shared and fresh contexts")
+	}
 	runC07Integ(r, w, ch)
 }
 
